@@ -262,11 +262,24 @@ func (A *Analysis) binop(x *ssa.BinOp, pc pathCtx) *F {
 		}
 		return A.structAtom(A.keyAtom("("+A.Sym.Of(l)+" < "+A.Sym.Of(r)+")", l, r), "lt", l, r)
 	}
+	eq0 := func() *F {
+		if isLen(a) {
+			if k, ok := constInt(b); ok && k == 0 {
+				return lenZero(a)
+			}
+		}
+		if isLen(b) {
+			if k, ok := constInt(a); ok && k == 0 {
+				return lenZero(b)
+			}
+		}
+		return eq()
+	}
 	switch x.Op {
 	case token.EQL:
-		return eq()
+		return eq0()
 	case token.NEQ:
-		return Not(eq())
+		return Not(eq0())
 	case token.LSS:
 		return lt(a, b)
 	case token.GTR:
